@@ -263,7 +263,7 @@ def run(ctx):
     ctx.extra['model_impl_mismatches'] = len(mism)
     ctx.extra['refine_runs'] = [{k: v for k, v in rec.items() if k != 'layers'} for rec in B][:12]
 
-    if not ctx.violations and not ctx.known_printed:
+    if not ctx.violations:   # a printed KNOWN-FINDING must not hide a broken proof / model / correspondence
         if not built:
             ctx.violation('proof-broken', {'theorems': [o[0] for o in ctx.obligations if not o[1]], 'log': getattr(ctx, 'broken_log', '')[-3000:]}, 'Props/C20.v no longer checks', no_input=True)
         elif not model_ok:
